@@ -30,6 +30,11 @@ type c12Op struct {
 type c12Case struct {
 	Parts []int   `json:"parts"` // partitions per stream s0..s2 (0 = stream does not exist yet)
 	Ops   []c12Op `json:"ops"`
+	// Replay: the second object plays a server that applies the same operations
+	// while it replays its Raft log after a start: a deleted stream is only
+	// tombstoned there until the replay is over, so it still exists - with its
+	// partitions - as far as the partition count the group asks for is concerned
+	Replay bool `json:"replay,omitempty"`
 }
 
 func c12Stream(i int) string { return fmt.Sprintf("s%d", i) }
@@ -37,7 +42,7 @@ func c12Member(i int) string { return fmt.Sprintf("m%d", i) }
 
 func genC12(t *rapid.T) c12Case {
 	ns := rapid.IntRange(1, 3).Draw(t, "nstreams")
-	c := c12Case{}
+	c := c12Case{Replay: rapid.Bool().Draw(t, "replay")}
 	for i := 0; i < ns; i++ {
 		c.Parts = append(c.Parts, rapid.IntRange(1, 5).Draw(t, "parts"))
 	}
@@ -75,11 +80,27 @@ type c12World struct {
 	group   *consumerGroup
 	shadow  *consumerGroup // second object fed the same history (determinism); rebuilt from a snapshot on "rebuild"
 	members map[string]map[string]bool
+	tomb    map[string]int32 // partitions of deleted streams as the replaying server still sees them
 	epoch   uint64 // Raft index of the current operation
 	gEpoch  uint64 // group epoch: index of the last operation that changed the group
 }
 
 func (w *c12World) countParts(s string) int32 { return w.parts[s] }
+
+func (w *c12World) countPartsReplaying(s string) int32 {
+	if n := w.tomb[s]; n > 0 {
+		return n
+	}
+	return w.parts[s]
+}
+
+func (w *c12World) newShadow(first *proto.Consumer) *consumerGroup {
+	pg := &proto.ConsumerGroup{Id: "g", Coordinator: "me", Epoch: 0}
+	if first != nil {
+		pg.Members = []*proto.Consumer{first}
+	}
+	return newConsumerGroup("me", time.Hour, pg, false, vfLogger(), func(string, string) error { return nil }, w.countPartsReplaying)
+}
 
 func (w *c12World) newGroup(first *proto.Consumer) *consumerGroup {
 	pg := &proto.ConsumerGroup{Id: "g", Coordinator: "me", Epoch: 0}
@@ -105,7 +126,7 @@ func c12Assignments(g *consumerGroup, members map[string]map[string]bool, epoch 
 }
 
 func runC12(c c12Case, o *vfutil.Obs) *vfutil.Failure {
-	w := &c12World{parts: map[string]int32{}, members: map[string]map[string]bool{}}
+	w := &c12World{parts: map[string]int32{}, members: map[string]map[string]bool{}, tomb: map[string]int32{}}
 	for i, p := range c.Parts {
 		w.parts[c12Stream(i)] = int32(p)
 	}
@@ -139,7 +160,7 @@ func runC12(c c12Case, o *vfutil.Obs) *vfutil.Failure {
 			if w.group == nil {
 				// the first member creates the group (CreateConsumerGroupOp); its epoch is 0
 				w.group = w.newGroup(&proto.Consumer{Id: m, Streams: ss})
-				w.shadow = w.newGroup(&proto.Consumer{Id: m, Streams: ss})
+				w.shadow = w.newShadow(&proto.Consumer{Id: m, Streams: ss})
 				w.gEpoch = 0
 			} else {
 				w.gEpoch = w.epoch
@@ -183,6 +204,10 @@ func runC12(c c12Case, o *vfutil.Obs) *vfutil.Failure {
 			if w.parts[s] == 0 {
 				continue
 			}
+			if c.Replay {
+				w.tomb[s] = w.parts[s]
+				o.Label("stream-deleted-while-replaying(tombstoned)")
+			}
 			w.parts[s] = 0
 			hadSubscribers := false
 			for _, subs := range w.members {
@@ -210,6 +235,7 @@ func runC12(c c12Case, o *vfutil.Obs) *vfutil.Failure {
 				continue
 			}
 			w.parts[s] = int32(op.Parts)
+			delete(w.tomb, s) // re-creating a stream removes the tombstone
 		case "rebuild":
 			// the shadow is replaced by a group restored from a snapshot of
 			// itself, as Server.Snapshot/Restore do; the snapshot lists the
@@ -245,7 +271,7 @@ func runC12(c c12Case, o *vfutil.Obs) *vfutil.Failure {
 				pg.Members = append(pg.Members, &proto.Consumer{Id: id, Streams: ss})
 			}
 			w.shadow.Close()
-			w.shadow = newConsumerGroup("me", time.Hour, pg, false, vfLogger(), func(string, string) error { return nil }, w.countParts)
+			w.shadow = newConsumerGroup("me", time.Hour, pg, false, vfLogger(), func(string, string) error { return nil }, w.countPartsReplaying)
 			rebuilt = true
 			o.Label("snapshot-rebuild")
 		}
@@ -435,7 +461,7 @@ func TestVerifC12Exh(t *testing.T) {
 		rec = func() bool {
 			if len(idx) > 0 {
 				if n%shards == shard {
-					c := c12Case{Parts: []int{2, 3}}
+					c := c12Case{Parts: []int{2, 3}, Replay: true}
 					for _, i := range idx {
 						c.Ops = append(c.Ops, alpha[i])
 					}
